@@ -19,7 +19,11 @@ fn u(v: &Value, k: &str, d: u64) -> u64 {
 }
 
 fn uni_of<P: PType>(spec: &Value) -> Universe {
-    let embed = if s(spec, "embed", "hi") == "lo" { Embed::Lo } else { Embed::Hi };
+    let embed = match s(spec, "embed", "hi") {
+        "lo" => Embed::Lo,
+        "mid" => Embed::Mid,
+        _ => Embed::Hi,
+    };
     Universe::new(s(spec, "universe", "U2"), embed, P::WIDTH)
 }
 
